@@ -42,6 +42,8 @@ Fixpoint p_stmt (s : stmt) : string :=
   | SRepeat b c => "repeat" ++ nl ++ p_block b ++ "until " ++ p_cond c ++ nl
   | SFor a z b => "for i = " ++ dec a ++ ", " ++ dec z ++ " do" ++ nl ++ p_block b ++ "end" ++ nl
   | SBreakIf c b => "if " ++ p_cond c ++ " then" ++ nl ++ p_block b ++ "break" ++ nl ++ "end" ++ nl
+  | SAssert c => "assert(" ++ p_cond c ++ ")" ++ nl
+  | SReturnIf e c b => "if " ++ p_cond c ++ " then" ++ nl ++ p_block b ++ (if e then "error('e')" else "return") ++ nl ++ "end" ++ nl
   end
 with p_rest (r : rest) : string :=
   match r with
